@@ -370,7 +370,7 @@ fn run_many(out: &mut WorkerOut) {
 /// names that collide with something if the registry key is built carelessly: the spelling of
 /// the conditional, separators, the empty name (the unnamed kinds have none), kind names, and two
 /// identifiers with the same 64-bit SipHash-1-3 (zero key) value, std's DefaultHasher
-const ODD_NAMES: &[&str] = &["?:", "?", ":", "", ",", ";", "list", "map", "chain", "ternary", "LIST", "TERNARY", "[]", "-", "vfc5acb49f5ef8c21", "vac9e857a2d36f82b"];
+const ODD_NAMES: &[&str] = &["?:", "?", ":", "", ",", ";", "list", "map", "chain", "ternary", "LIST", "TERNARY", "[]", "-", "vfc5acb49f5ef8c21", "vac9e857a2d36f82b", "cfg", "cfg.", "cfg.limit", "cfg.a.b", "cfg.*", "*"];
 
 /// Stage "cross-names": every single registration and every ordered pair of registrations over
 /// {unary, binary, postfix, function, reference} x ODD_NAMES + {ternary, list, map, chain};
@@ -657,7 +657,7 @@ impl Prop for C18 {
                 Stage { name: "many".into(), len: 1, chunk: 1, timeout: Duration::from_secs(300), what: "a registry growing to 70 entries (35 names x reference / function descriptors) one registration at a time, then every entry replaced; after every step each name is described as a reference and as a call (fresh process)".into() },
                 Stage { name: "hostile".into(), len: (REGS.len() * HOSTILE.len()) as u64, chunk: 1, timeout: Duration::from_secs(60), what: "for each (kind, name): a descriptor that itself calls parse + describe(), that itself registers a descriptor, or that panics on its first call (fresh process each); renderings, and renderings after the normal descriptor is registered over it, must equal the reference".into() },
                 Stage { name: "fresh".into(), len: (REGS.len() + 2) as u64, chunk: 1, timeout: Duration::from_secs(120), what: "the empty, every singleton and the full configuration, each in a fresh process without the clear hook".into() },
-                Stage { name: "cross-names".into(), len: 1, chunk: 1, timeout: Duration::from_secs(600), what: "every single registration and every ordered pair of registrations over {unary, binary, postfix, function, reference} x 16 names that collide if a registry key is built carelessly (the conditional's spelling '?:', separators, the empty name, kind names, two identifiers with equal 64-bit SipHash) + {ternary, list, map, chain}; under each, one hand-assembled node per (kind, name) renders with its own descriptor if registered, else with the default (fresh process)".into() },
+                Stage { name: "cross-names".into(), len: 1, chunk: 1, timeout: Duration::from_secs(600), what: "every single registration and every ordered pair of registrations over {unary, binary, postfix, function, reference} x 22 names that collide if a registry key is built carelessly (the conditional's spelling '?:', separators, the empty name, kind names, two identifiers with equal 64-bit SipHash, dotted names with their prefixes and `*` forms) + {ternary, list, map, chain}; under each, one hand-assembled node per (kind, name) renders with its own descriptor if registered, else with the default (fresh process)".into() },
             ],
             rule: format!(
                 "configurations: subsets of {} (kind, name) registrations with names shared across kinds (unary/binary '-', unary/postfix '++', function/reference 'x' and 'f') — {}; programs: every AST of <= {} operator nodes over 16 node kinds (empty and non-empty calls, lists, maps included) + chains ({} programs). \
